@@ -19,7 +19,7 @@ ID = "C37"
 LEVEL = "model_checking"
 TECHNIQUE = "explicit-state BFS over operation histories on the real EKO store vs dictionary reference model"
 LEVEL_TEXT = (
-    "every operation history up to the depth bound over 3 keys x 3 values x 8 operation kinds is "
+    "every operation history up to the depth bound over 3 keys x 3 values x 9 operation kinds is "
     "replayed on the real store; each observation and the full visible + persisted content are "
     "compared with a persistent-dict model; states deduplicated on (mode, model, disk files, cache flags)"
 )
@@ -47,6 +47,8 @@ def alphabet():
     for k in range(3):
         ops.append(["get", k])
     for k in range(3):
+        ops.append(["ctxget", k])  # `with eko.operator(ep) as op`: read, then dropped from memory
+    for k in range(3):
         ops.append(["unload", k])
     for k in range(3):
         ops.append(["in", k])
@@ -70,7 +72,7 @@ class Model:
                 return ("raises",)
             self.current[op[1]] = op[2]
             return ("ok",)
-        if kind == "get":
+        if kind in ("get", "ctxget"):
             if op[1] in self.current:
                 return ("value", self.current[op[1]])
             return ("raises",)
@@ -147,6 +149,12 @@ class Impl:
                     if _same(o, vid):
                         return ("value", vid)
                 return ("value", "unknown")
+            if kind == "ctxget":
+                with e.operator(K[op[1]]) as o:
+                    for vid in range(3):
+                        if _same(o, vid):
+                            return ("value", vid)
+                    return ("value", "unknown")
             if kind == "unload":
                 del e[K[op[1]]]
                 return ("any",)
